@@ -434,6 +434,7 @@ type waiter struct {
 }
 
 type selState struct {
+	closed *ChanV // decided by the close of this channel
 	fired bool
 	caseI int
 	val   Value
@@ -614,7 +615,16 @@ func (g *G) chanClose(c *ChanV, pos token.Pos) {
 	if g.vm.race != nil {
 		g.vm.race.release(g, &c.sync)
 	}
-	// waiting receivers see closed via their ready predicates; selects too
+	// A select parked on this channel is decided NOW, as in the Go runtime (closechan dequeues every waiter and
+	// marks its select done): whatever becomes ready on its other channels before that goroutine runs again can
+	// no longer be chosen. (Plain receivers see the closed channel through their ready predicates.)
+	for _, w := range c.recvq {
+		if w.done || w.sel == nil || w.sel.fired {
+			continue
+		}
+		w.sel.fired, w.sel.caseI, w.sel.val, w.sel.ok = true, w.caseI, c.zeroElem(), false
+		w.sel.closed = c
+	}
 }
 
 func (g *G) selectOp(fr *Frame, ins *ssa.Select) Value {
@@ -711,6 +721,9 @@ func (g *G) selectOp(fr *Frame, ins *ssa.Select) Value {
 	if sel.fired {
 		for _, w := range ws {
 			w.done = true
+		}
+		if sel.closed != nil && vm.race != nil {
+			vm.race.acquire(g, &sel.closed.sync)
 		}
 		i := sel.caseI
 		if cases[i].send {
